@@ -676,6 +676,10 @@ def run_arith(job, R):
             R.classes.add(('divmod', kind, amt % d == 0))
             if not close(q * d + r, a):
                 R.viol.append(V('divmod-sum', f'divmod({a!r}, {d}) = ({q!r}, {r!r}): parts add up to {q * d + r!r}', {'amount': repr(a), 'divisor': d}, kind))
+            if kind != 'int' and r != a - q * d:
+                # "parts that add up to the amount": whatever the division loses to rounding must come back as the remainder
+                R.viol.append(V('divmod-residue', f'divmod({a!r}, {d}) = ({q!r}, {r!r}): the remainder is not what the shares leave over '
+                                f'({a - q * d!r})', {'amount': repr(a), 'divisor': d}, kind))
             if kind != 'int' and not (close(r, conv(0)) and close(q * d, a)):
                 R.viol.append(V('divmod-equal-shares', f'divmod({a!r}, {d}) = ({q!r}, {r!r}): chips that are not whole numbers are shared exactly, '
                                 f'nothing should be left over', {'amount': repr(a), 'divisor': d}, kind))
